@@ -174,6 +174,16 @@ func runProperty(repo, specs, prop, tier, out string) int {
 	for _, e := range p.BindErrs {
 		addFailure("contracts#bind["+e+"]", "bind-error", e)
 	}
+	// termination: loops carry decreases obligations; recursion has no measure in the contract language
+	recursive := map[string]bool{}
+	for _, r := range p.RecursiveFuncs() {
+		recursive[r] = true
+	}
+	for _, fn := range fns {
+		if sn := p.ShortName(fn); recursive[sn] {
+			addFailure(sn+"#termination[recursion]", "unsupported", "function lies on a cycle of the static call graph: termination not proved")
+		}
+	}
 	var kindSet map[string]bool
 	if len(cfg.Kinds) > 0 {
 		kindSet = map[string]bool{}
